@@ -156,6 +156,42 @@ def check_tensor(case):
     return Outcome(nontrivial=dim >= 2 and n >= 2, key=t)
 
 
+def enum_sequences(tier):
+    out = []
+    for dim in (1, 2, 3):
+        for order in ACCEPTED[dim]:
+            for seq in (["unit", "sym", "unit", "sym"], ["sym", "unit", "sym"], ["corners", "unit", "corners"]):
+                out.append({"dim": dim, "order": order, "seq": seq})
+    return out
+
+
+def check_repeatable(case):
+    """A rule is the same whenever it is asked for: earlier calls (of the same or the other cell
+    variant, same key) and in-place edits of previously returned arrays do not change it."""
+    dim, order = case["dim"], case["order"]
+    t = {"dim": dim, "order": order, "cell": "sequence"}
+    first = {}
+    for k, cell in enumerate(case["seq"]):
+        pts, w, lo, hi = _rule({"dim": dim, "order": order, "cell": cell})
+        meas = (hi - lo) ** dim
+        if len(w) == len(pts) and abs(w.sum() - meas) > 1e-13 * meas:
+            raise V("sequence-sum", f"call {k} ({cell}) after {case['seq'][:k]}: weights sum to {w.sum()!r}, "
+                    f"measure {meas}", t)
+        if cell in first:
+            p0, w0 = first[cell]
+            if not (np.array_equal(p0, pts) and np.array_equal(w0, w)):
+                raise V("sequence-changed", f"call {k} ({cell}) differs from the first {cell} call", t)
+        else:
+            first[cell] = (pts.copy(), w.copy())
+        # a caller scribbling on what it got must not reach later callers
+        raw = (Q.gauss(dim, order) if cell == "sym" else
+               Q.gauss_reference_cell(dim, order) if cell == "unit" else Q.reference_cell_corners(dim))
+        for arr in raw:
+            if isinstance(arr, np.ndarray) and arr.flags.writeable:
+                arr *= 3.0
+    return Outcome(True, case)
+
+
 def enum_reject(tier):
     return [{"dim": d, "order": o} for d in (1, 2, 3) for o in REJECTED[d]] + [
         {"dim": 4, "order": 0}, {"dim": 0, "order": 0}]
@@ -235,6 +271,7 @@ PROP = Prop(
         Sub("positive_sum_to_measure", check_positive_sum, enum=enum_rules, exhaustive=True, shards={"quick": 1, "thorough": 1}),
         Sub("exact_to_degree", check_exact, enum=enum_rules, exhaustive=True, shards={"quick": 2, "thorough": 2}),
         Sub("tensor_structure", check_tensor, enum=enum_rules, exhaustive=True, shards={"quick": 1, "thorough": 1}),
+        Sub("repeatable_across_calls", check_repeatable, enum=enum_sequences, exhaustive=True, shards={"quick": 1, "thorough": 1}),
         Sub("unsupported_orders_raise", check_reject, enum=enum_reject, exhaustive=True, shards={"quick": 1, "thorough": 1}),
         Sub("consumer", check_consumer, enum=enum_consumer, exhaustive=True, shards={"quick": 2, "thorough": 2}),
     ],
